@@ -408,3 +408,78 @@ package router
 //@   requires d.underlays != nil
 //@   ensures result == nil ==> provOK(d, link.Provider)
 //@   ensures d.RunConfig == old(d.RunConfig)
+
+//@ # ---- C11: the configured dispatched-port range reaches every underlay provider
+//@ ghost var provStart map[UnderlayProvider]uint16
+//@ ghost var provEnd map[UnderlayProvider]uint16
+//@ ghost var provRedirect map[UnderlayProvider]uint16
+//@ iface UnderlayProvider.SetDispatchPorts
+//@   modifies nothing
+//@   gset provStart[self] := start
+//@   gset provEnd[self] := end
+//@   gset provRedirect[self] := redirect
+
+//@ func (*dataPlane).SetPortRange
+//@   props C11
+//@   requires forall k string :: inmap(d.underlays, k) ==> d.underlays[k] != nil
+//@   loop 1 invariant forall k string :: visited(k) ==> provStart[d.underlays[k]] == start && provEnd[d.underlays[k]] == end && provRedirect[d.underlays[k]] == 30041
+//@   loop 1 invariant d.dispatchedPortStart == start && d.dispatchedPortEnd == end
+//@   ensures d.dispatchedPortStart == start && d.dispatchedPortEnd == end
+//@   ensures forall k string :: inmap(d.underlays, k) ==> provStart[d.underlays[k]] == start && provEnd[d.underlays[k]] == end && provRedirect[d.underlays[k]] == 30041
+
+//@ # ---- C11: layer-4 port derived from the packet
+//@ import gopacket "github.com/gopacket/gopacket"
+//@ ghost var layerPld map[gopacket.DecodingLayer][]byte
+//@ iface gopacket.DecodingLayer.LayerPayload
+//@   modifies nothing
+//@   ensures result == layerPld[self]
+
+//@ # nextHdr is a pure projection of the last decoded layer
+//@ spec func l4Of(l gopacket.DecodingLayer) slayers.L4ProtocolType uninterpreted
+//@ func nextHdr
+//@   modifies nothing
+//@   trusted
+//@   ensures result == l4Of(layer)
+//@ # quoted-packet parsing of SCMP errors runs inside gopacket: assumed frame only
+//@ func getDstPortSCMP
+//@   trusted
+//@   modifies nothing
+
+//@ func (*dataPlane).dstScionPort
+//@   props C11
+//@   requires lastLayer != nil
+//@   let pld = layerPld[lastLayer]
+//@   let l4 = l4Of(lastLayer)
+//@   modifies nothing
+//@   ensures l4 == slayers.L4UDP ==> (result1 == nil) == (len(pld) >= 8)
+//@   ensures l4 == slayers.L4TCP ==> (result1 == nil) == (len(pld) >= 20)
+//@   ensures (l4 == slayers.L4UDP || l4 == slayers.L4TCP) && result1 == nil ==> result0 == uint16(pld[2])<<8|uint16(pld[3])
+//@   ensures l4 != slayers.L4UDP && l4 != slayers.L4TCP && l4 != slayers.L4SCMP ==> result1 == nil && result0 == 30041
+
+//@ # the link resolves with the port derived from the packet (IP hosts) — the translation itself is udpip's Resolve
+//@ ghost var lastResolvePort uint16
+//@ ghost var lastResolveLink Link
+//@ iface Link.Resolve
+//@   modifies p.RemoteAddr
+//@   gset lastResolvePort := port
+//@   gset lastResolveLink := self
+
+//@ func (*dataPlane).resolveLocalDst
+//@   props C11
+//@   requires packet != nil && lastLayer != nil && d.interfaces[packet.egress] != nil
+//@   requires len(s.RawDstAddr) == 4*(1+int(s.DstAddrType&3))
+//@   let pld = layerPld[lastLayer]
+//@   let l4 = l4Of(lastLayer)
+//@   modifies packet.RemoteAddr, lastResolvePort, lastResolveLink
+//@   ensures result == nil ==> lastResolveLink == d.interfaces[packet.egress]
+//@   ensures result == nil && s.DstAddrType == slayers.T4Ip && (l4 == slayers.L4UDP || l4 == slayers.L4TCP) ==> lastResolvePort == uint16(pld[2])<<8|uint16(pld[3])
+//@   ensures result == nil && s.DstAddrType == slayers.T4Ip && l4 != slayers.L4UDP && l4 != slayers.L4TCP && l4 != slayers.L4SCMP ==> lastResolvePort == 30041
+
+//@ # the router-configuration override wins over the topology's range
+//@ func (*Connector).SetPortRange
+//@   props C11
+//@   requires forall k string :: inmap(c.DataPlane.underlays, k) ==> c.DataPlane.underlays[k] != nil
+//@   let ws = ite(c.DispatchedPortStart != nil, uint16(*c.DispatchedPortStart), start)
+//@   let we = ite(c.DispatchedPortEnd != nil, uint16(*c.DispatchedPortEnd), end)
+//@   ensures c.DataPlane.dispatchedPortStart == ws && c.DataPlane.dispatchedPortEnd == we
+//@   ensures forall k string :: inmap(c.DataPlane.underlays, k) ==> provStart[c.DataPlane.underlays[k]] == ws && provEnd[c.DataPlane.underlays[k]] == we && provRedirect[c.DataPlane.underlays[k]] == 30041
